@@ -24,6 +24,21 @@ CHECKS = {
    note="side condition of the property enforced by the generators (exclusive mount prefixes, no static sibling of a param prefix segment); fang tuples up to arity 4, local tuples up to 2; trusted: TraceFang in harness/src/router.rs"),
 }
 
+# entries proposed in notes/Cnn.md (written by the builders of those checks) are picked up unless overridden above
+import re, glob
+EXP = "exploration"
+for nf in sorted(glob.glob(os.path.join(V, "notes", "C*.md"))):
+    txt = open(nf).read()
+    m = re.search(r"roposed MANIFEST.*?```python\n(.*?)```", txt, re.S)
+    if not m:
+        continue
+    try:
+        d = eval("{" + m.group(1) + "}", {"MC": MC, "EXP": EXP, "dict": dict, "exploration": EXP, "model_checking": MC})
+    except Exception as e:
+        print("cannot read manifest entry in", nf, e); continue
+    for k, v in d.items():
+        CHECKS.setdefault(k, v)
+
 def commits():
     out = subprocess.run(["git", "-C", "/repo", "log", "--format=%h %s"], stdout=subprocess.PIPE, text=True).stdout
     return [l.split()[0] for l in out.splitlines() if l.split(" ", 1)[1].startswith("verif hook")][::-1]
